@@ -2,7 +2,7 @@
    executor.go, tombstone.go, coordinator.go) on top of the storage-manager model Engine.v.
 
    This is the REPAIRED code (/repo commits deebfc9 tables by age, cf3362d newest-first merge,
-   ca9115b DropTombstones, 390f6e5 range closure); the behaviour before these fixes, with the
+   ca9115b DropTombstones, 390f6e5 range closure, f30cabd the empty key is a key); the behaviour before these fixes, with the
    witnesses that refuted the property, is kept in CompactionBefore.v / CompactionBeforeProofs.v.
 
    What is modelled, as coded:
@@ -115,20 +115,24 @@ Definition last_key (f : dfile) : bytes :=
   match rev (d_entries f) with [] => [] | e :: _ => sk e end.
 
 Definition blt (a b : bytes) : bool := match bcmp a b with Lt => true | _ => false end.
-Definition isnil (a : bytes) : bool := match a with [] => true | _ => false end.
+(* a table without entries has nil first/last keys: "no keys" *)
+Definition nokeys (f : dfile) : bool := match d_entries f with [] => true | _ => false end.
 
-(* SSTableInfo.Overlaps on two key ranges *)
-Definition overlaps (f1 l1 f2 l2 : bytes) : bool :=
-  if isnil f1 || isnil l1 || isnil f2 || isnil l2 then false
-  else negb (blt l1 f2 || blt l2 f1).
+(* SSTableInfo.Overlaps on two key ranges (n1, n2: the side has no keys); the empty key is a key *)
+Definition overlaps (n1 n2 : bool) (f1 l1 f2 l2 : bytes) : bool :=
+  if n1 || n2 then false else negb (blt l1 f2 || blt l2 f1).
 
-Definition dfile_le (a b : dfile) : bool := sst_le (d_sst a) (d_sst b).
+(* directory order = file name order = (level, number, timestamp) *)
+Definition name_le (a b : sst) : bool :=
+  if s_level a <? s_level b then true else if s_level b <? s_level a then false else
+  if s_num a <? s_num b then true else if s_num b <? s_num a then false else
+  s_ts a <=? s_ts b.
+Definition dfile_le (a b : dfile) : bool := name_le (d_sst a) (d_sst b).
 Fixpoint dinsert (x : dfile) (l : list dfile) : list dfile :=
   match l with
   | [] => [x]
   | y :: r => if dfile_le x y then x :: l else y :: dinsert x r
   end.
-(* directory order = file name order = (level, number, timestamp) *)
 Definition dsort (l : list dfile) : list dfile := fold_right dinsert [] l.
 
 (* files of one level, oldest first: sort.SliceStable by timestamp over the directory order *)
@@ -167,20 +171,30 @@ Definition covers_deeper (dir ins : list dfile) (target : N) : bool :=
 Definition mk_task (dir : list dfile) (groups : list (N * list dfile)) (target : N) : task :=
   mkT groups target (covers_deeper dir (concat (map snd groups)) target).
 
-(* selectL0Compaction: key range of the selected files, with the code's "len == 0" tests *)
-Definition l0_range (sel : list dfile) : bytes * bytes :=
+(* hull of a key range and some files *)
+Definition hull (lo hi : bytes) (ins : list dfile) : bytes * bytes :=
   fold_left (fun mm f =>
                let '(mn, mx) := mm in
-               (if isnil mn || blt (first_key f) mn then first_key f else mn,
-                if isnil mx || blt mx (last_key f) then last_key f else mx))
-            sel ([], []).
+               (if blt (first_key f) mn then first_key f else mn,
+                if blt mx (last_key f) then last_key f else mx))
+            ins (lo, hi).
+
+(* selectL0Compaction: key range of the selected files (minKey/maxKey start as nil) *)
+Definition l0_range (sel : list dfile) : option (bytes * bytes) :=
+  match sel with
+  | [] => None
+  | f0 :: r => Some (hull (first_key f0) (last_key f0) r)
+  end.
 
 Definition select_l0 (maxmem : N) (dir : list dfile) : option task :=
   let l0 := level_files 0 dir in
   if N.of_nat (length l0) <? 2 then None else
   let sel := firstn (N.to_nat maxmem) l0 in
-  let '(mn, mx) := l0_range sel in
-  let l1 := filter (fun f => overlaps (first_key f) (last_key f) mn mx) (level_files 1 dir) in
+  let l1 := match l0_range sel with
+            | None => []
+            | Some (mn, mx) =>
+              filter (fun f => overlaps (nokeys f) false (first_key f) (last_key f) mn mx) (level_files 1 dir)
+            end in
   Some (mk_task dir [(0, sel); (1, l1)] 1).
 
 Definition select_promotion (L : N) (dir : list dfile) : option task :=
@@ -193,7 +207,7 @@ Definition select_overlapping (L : N) (dir : list dfile) : option task :=
   match level_files L dir with
   | [] => None
   | f :: _ =>
-    let nxt := filter (fun g => overlaps (first_key f) (last_key f) (first_key g) (last_key g))
+    let nxt := filter (fun g => overlaps (nokeys f) (nokeys g) (first_key f) (last_key f) (first_key g) (last_key g))
                       (level_files (L + 1) dir) in
     Some (mk_task dir [(L, [f]); (L + 1, nxt)] (L + 1))
   end.
@@ -222,20 +236,12 @@ Definition select (maxmem : N) (cc : ccfg) (dir : list dfile) : option task :=
 
 (* CompactRange: the files of levels L.. that overlap [lo, hi], grouped by level *)
 Fixpoint range_groups (n : nat) (L : N) (lo hi : bytes) (dir : list dfile) : list (N * list dfile) :=
-  let here := filter (fun f => overlaps (first_key f) (last_key f) lo hi) (level_files L dir) in
+  let here := filter (fun f => overlaps (nokeys f) false (first_key f) (last_key f) lo hi) (level_files L dir) in
   let g := match here with [] => [] | _ => [(L, here)] end in
   match n with
   | O => g
   | S n' => g ++ range_groups n' (L + 1) lo hi dir
   end.
-
-(* hull of the range and the selected files *)
-Definition hull (lo hi : bytes) (ins : list dfile) : bytes * bytes :=
-  fold_left (fun mm f =>
-               let '(mn, mx) := mm in
-               (if blt (first_key f) mn then first_key f else mn,
-                if blt mx (last_key f) then last_key f else mx))
-            ins (lo, hi).
 
 (* the widening loop: stop when a round selects as many files as the round before *)
 Fixpoint range_closure (fuel : nat) (selected : nat) (lo hi : bytes) (dir : list dfile)
@@ -389,31 +395,19 @@ Definition crange (s : cst) (lo hi : bytes) (sizes : list N) : cst :=
   end.
 
 (* close + open; with retire = true the log files that are fully contained in SSTables are
-   removed while the database is closed (what WAL retention does to flushed files) *)
-(* loadSSTables after the repair: oldest data first = deeper levels first, inside a level by
-   creation timestamp (Get scans the list from the last to the first) *)
-Definition age_le (a b : sst) : bool :=
-  if s_level b <? s_level a then true else if s_level a <? s_level b then false else
-  s_ts a <=? s_ts b.
-Fixpoint age_insert (x : sst) (l : list sst) : list sst :=
-  match l with
-  | [] => [x]
-  | y :: r => if age_le y x then y :: age_insert x r else x :: l
-  end.
-Definition age_sort (l : list sst) : list sst := fold_left (fun acc x => age_insert x acc) l [].
-
+   removed first. Engine.reopen loads the tables of the directory (listed in name order) and
+   orders them by age: deeper levels first, inside a level by creation timestamp. *)
 Definition creopen (s : cst) (retire : bool) : cst :=
   let e0 := eng s in
   let e1 := if retire then upd_wal e0 (wal_next e0) (skipn (retirable s) (wal_files e0)) else e0 in
   let e2 := reopen (set_ssts e1 (map d_sst (dsort (disk s)))) in
-  mkC (set_ssts e2 (age_sort (map d_sst (dsort (disk s))))) (disk s) [] (cc s)
-      (if retire then 0%nat else retirable s).
+  mkC e2 (disk s) [] (cc s) (if retire then 0%nat else retirable s).
 
 Definition cget (s : cst) (k : bytes) : option bytes := get (eng s) k.
 
 (* what a database opened on the SST directory alone reads (no log, empty memtables) *)
 Definition ssts_read (tables : list sst) (k : bytes) : option bytes :=
-  match ssts_get k (rev (age_sort tables)) with
+  match ssts_get k (rev (sst_sort tables)) with
   | Some (Some v) => Some v
   | _ => None
   end.
